@@ -24,7 +24,6 @@ int g_vl_rfc_ret;                             /* outcome of the RFC3161 pre-chec
 KSI_LIST(KSI_Integer) g_vl_il[2];
 size_t g_vl_il_len[2];
 struct KSI_Integer_st g_vl_iv[2];             /* storage of the element handed out last by each index list */
-KSI_Integer *g_vl_il_last[2];                 /* INT-10: the last element of the list (possibly absent: malformed) */
 size_t g_vi_calls;                            /* INT-12: index positions compared so far for the current pair */
 _Bool g_vi_prev_fetched;                      /* INT-12: the previous chain's element at the current position has been fetched */
 /* shape of the current chain (INT-10): result of KSI_AggregationHashChain_calculateShape (C03.shape) */
@@ -40,95 +39,124 @@ static size_t vl_length(KSI_LIST(KSI_AggregationHashChain) *l) { return g_vl_n; 
 
 static size_t vl_il_length(KSI_LIST(KSI_Integer) *l) {
 	__CPROVER_assert(l == &g_vl_il[0] || l == &g_vl_il[1], "index list of the current or previous chain");
-	return l == &g_vl_il[0] ? g_vl_il_len[0] : g_vl_il_len[1];
+	if (l == &g_vl_il[0]) return g_vl_il_len[0];
+	return g_vl_il_len[1];
 }
+/* NOTE on the shape of this code: chain k lives in slot k % 2, but every access below goes through a constant slot
+ * number inside an explicit branch (VL_SLOT_BODY is expanded twice).  A symbolic slot index would make symbolic
+ * execution mix the fetched slot with the loop-havocked other slot, and pointers read back from havocked memory are
+ * dereferenced by case split over every object of the program (minutes instead of seconds). */
 #if defined(VL_MODE_SHAPE)
 /* INT-10: only the last element is consulted */
 static int vl_il_elementAt(KSI_LIST(KSI_Integer) *l, size_t pos, KSI_Integer **o) {
-	int s = (l == &g_vl_il[0]) ? 0 : 1;
 	__CPROVER_assert(l == &g_vl_il[0] || l == &g_vl_il[1], "index list of the current chain");
-	__CPROVER_assert(l == g_vl_prev->chainIndex, "index list of the current chain");
-	__CPROVER_assert(g_vl_il_len[s] > 0 && pos == g_vl_il_len[s] - 1, "the chain's own index is the LAST element of its index list");
-	*o = g_vl_il_last[s];
+	__CPROVER_assert(g_vl_calls > 0 && l == &g_vl_il[(g_vl_calls - 1) % 2], "index list of the current chain");
+	if (l == &g_vl_il[0]) {
+		__CPROVER_assert(g_vl_il_len[0] > 0 && pos == g_vl_il_len[0] - 1, "the chain's own index is the LAST element of its index list");
+		*o = &g_vl_iv[0];
+	} else {
+		__CPROVER_assert(g_vl_il_len[1] > 0 && pos == g_vl_il_len[1] - 1, "the chain's own index is the LAST element of its index list");
+		*o = &g_vl_iv[1];
+	}
 	return KSI_OK;
 }
 #elif defined(VL_MODE_IDX)
 /* INT-12: position j of the previous chain's list, then position j of the current chain's list, j = 0, 1, ...
  * every fetch yields a fresh value; the pair is compared here */
+#define VL_IL_BODY(S) \
+	if (cur != (S)) { \
+		__CPROVER_assert(!g_vi_prev_fetched, "previous chain's element first, once"); \
+		__CPROVER_assert(pos < g_vl_il_len[S], "inside the previous chain's list (it is one longer)"); \
+		g_vl_iv[S].value = nondet_ull(); \
+		g_vi_prev_fetched = 1; \
+	} else { \
+		__CPROVER_assert(pos < g_vl_il_len[S], "inside the current chain's list"); \
+		__CPROVER_assert(g_vi_prev_fetched, "current chain's element second"); \
+		g_vl_iv[S].value = nondet_ull(); \
+		if (g_vl_iv[0].value != g_vl_iv[1].value) g_vl_fail = 1;          /* not a continuation */ \
+		g_vi_prev_fetched = 0; g_vi_calls++; \
+	} \
+	*o = &g_vl_iv[S];
 static int vl_il_elementAt(KSI_LIST(KSI_Integer) *l, size_t pos, KSI_Integer **o) {
-	int s = (l == &g_vl_il[0]) ? 0 : 1;
 	int cur = (int)((g_vl_calls - 1) % 2);
 	__CPROVER_assert(l == &g_vl_il[0] || l == &g_vl_il[1], "index list of the current or previous chain");
 	__CPROVER_assert(g_vl_calls >= 2 && !g_vl_fail && !g_vl_na, "index elements are compared for an adjacent pair, before the verdict is determined");
-	__CPROVER_assert(pos == g_vi_calls && pos < g_vl_il_len[cur], "index positions 0 .. len(current)-1, each once");
-	if (s != cur) {
-		__CPROVER_assert(!g_vi_prev_fetched, "previous chain's element first, once");
-		__CPROVER_assert(pos < g_vl_il_len[s], "inside the previous chain's list (it is one longer)");
-		g_vl_iv[s].value = nondet_ull(); g_vl_iv[s].ref = 1;
-		g_vi_prev_fetched = 1;
-	} else {
-		__CPROVER_assert(g_vi_prev_fetched, "current chain's element second");
-		g_vl_iv[s].value = nondet_ull(); g_vl_iv[s].ref = 1;
-		if (g_vl_iv[0].value != g_vl_iv[1].value) g_vl_fail = 1;          /* not a continuation */
-		g_vi_prev_fetched = 0; g_vi_calls++;
-	}
-	*o = &g_vl_iv[s];
+	__CPROVER_assert(pos == g_vi_calls, "index positions 0 .. len(current)-1, each once");
+	if (l == &g_vl_il[0]) { VL_IL_BODY(0) } else { VL_IL_BODY(1) }
 	return KSI_OK;
 }
+#endif
+
+#if defined(VL_MODE_TIME)
+/* INT-02: all chains carry one aggregation time (mandatory in the TLV template of an aggregation chain) */
+#define VL_SLOT_BODY(S) \
+	g_vl_time[S].value = nondet_ull(); \
+	if (g_vl_calls > 0 && g_vl_time[S].value != g_vl_time[1 - (S)].value) g_vl_fail = 1;
+#elif defined(VL_MODE_ALG)
+/* INT-15: the chain's aggregation algorithm was not deprecated at its aggregation time (both mandatory fields);
+ * stated bound: algorithm ids below 2^31 */
+#ifdef VR_TIMES_BELOW_2P63
+#define VL_TIME_MASK 0x7fffffffffffffffULL
+#else
+#define VL_TIME_MASK 0xffffffffffffffffULL
+#endif
+#define VL_SLOT_BODY(S) \
+	g_vl_time[S].value = nondet_ull() & VL_TIME_MASK; \
+	g_vl_algid[S].value = nondet_ull() & 0x7fffffffULL; \
+	if (spec_alg_rule_fails(spec_hashalg_status_at((long long)g_vl_algid[S].value, vr_time_ll(g_vl_time[S].value)))) g_vl_fail = 1;
+#elif defined(VL_MODE_SHAPE)
+/* INT-10: the chain's own index (last element of its index list) equals the shape of its links */
+#define VL_SLOT_BODY(S) \
+	g_vl_il_len[S] = nondet_size() & VL_MAX_LIST; \
+	g_vl_iv[S].value = nondet_ull(); \
+	g_vl_shape_known = nondet_bool(); g_vl_shape = nondet_ull(); \
+	if (g_vl_il_len[S] > 0) { \
+		if (!g_vl_shape_known) g_vl_na = 1; \
+		else if (g_vl_iv[S].value != g_vl_shape) g_vl_fail = 1; \
+	}
+#elif defined(VL_MODE_IDX)
+/* INT-12: the previous chain's index list is the current one's plus one element; the common positions are compared by
+ * vl_il_elementAt */
+#define VL_SLOT_BODY(S) \
+	g_vl_il_len[S] = nondet_size() & VL_MAX_LIST; \
+	g_vi_calls = 0; g_vi_prev_fetched = 0; \
+	if (g_vl_calls > 0 && !spec_index_len_extends(g_vl_il_len[1 - (S)], g_vl_il_len[S])) g_vl_fail = 1;
+#elif defined(VL_MODE_CONS)
+/* INT-01: the output of the previous chain equals the input hash of this one (one input-hash identity, re-valued per fetch) */
+#define VL_SLOT_BODY(S) \
+	g_vr_h_alg[VR_H_IN0] = nondet_uchar(); g_vr_h_dig[VR_H_IN0] = nondet_ull(); \
+	if (g_vl_calls > 0 && !spec_imprint_equal(g_vr_h_alg[VR_H_NEW1 + 1 - (S)], g_vr_h_dig[VR_H_NEW1 + 1 - (S)], g_vr_h_alg[VR_H_IN0], g_vr_h_dig[VR_H_IN0])) g_vl_fail = 1;
+#else
+#define VL_SLOT_BODY(S)
 #endif
 
 static int vl_elementAt(KSI_LIST(KSI_AggregationHashChain) *l, size_t pos, KSI_AggregationHashChain **o) {
-	int s = (int)(pos % 2);
-	KSI_AggregationHashChain *cur = &g_vl_c[s];
 	__CPROVER_assert(l == &g_vr_chainlist && o != NULL, "chain list: the signature's list is asked");
 	__CPROVER_assert(!g_vl_fail && !g_vl_na, "protocol: no chain is fetched after the verdict is determined");
 	__CPROVER_assert(pos == g_vl_calls && pos < g_vl_n, "protocol: every chain once, first to last");
-	/* only the fields the rule of the mode may look at are rewritten per fetch (typed, cheap loop havoc); the rest is set once in vl_world_init */
-#if defined(VL_MODE_TIME)
-	/* INT-02: all chains carry one aggregation time */
-	g_vl_time[s].value = nondet_ull(); g_vl_time[s].ref = 1;
-	cur->aggregationTime = VR_OPT(&g_vl_time[s]);
-	if (g_vl_prev != NULL && !vr_int_eq(cur->aggregationTime, g_vl_prev->aggregationTime)) g_vl_fail = 1;
-#elif defined(VL_MODE_ALG)
-	/* INT-15: the chain's aggregation algorithm was not deprecated at its aggregation time */
-	g_vl_time[s].value = nondet_ull(); g_vl_time[s].ref = 1;
-#ifdef VR_TIMES_BELOW_2P63
-	g_vl_time[s].value &= 0x7fffffffffffffffULL;
-#endif
-	g_vl_algid[s].value = nondet_ull() & 0x7fffffffULL; g_vl_algid[s].ref = 1;       /* stated bound: algorithm ids below 2^31 */
-	cur->aggregationTime = &g_vl_time[s];        /* both mandatory in the TLV template of an aggregation chain */
-	cur->aggrHashId = &g_vl_algid[s];
-	if (spec_alg_rule_fails(spec_hashalg_status_at((long long)vr_u64(cur->aggrHashId), vr_time_ll(vr_u64(cur->aggregationTime))))) g_vl_fail = 1;
-#elif defined(VL_MODE_SHAPE)
-	/* INT-10: the chain's own index (last element of its index list) equals the shape of its links */
-	g_vl_il_len[s] = nondet_size() & VL_MAX_LIST;
-	g_vl_iv[s].value = nondet_ull(); g_vl_iv[s].ref = 1;
-	g_vl_il_last[s] = VR_OPT(&g_vl_iv[s]);
-	cur->chainIndex = VR_OPT(&g_vl_il[s]);
-	g_vl_shape_known = nondet_bool(); g_vl_shape = nondet_ull();
-	if (cur->chainIndex != NULL && g_vl_il_len[s] > 0) {
-		if (!g_vl_shape_known || g_vl_il_last[s] == NULL) g_vl_na = 1;
-		else if (g_vl_il_last[s]->value != g_vl_shape) g_vl_fail = 1;
+	if (pos % 2 == 0) {
+		VL_SLOT_BODY(0)
+		g_vl_prev = &g_vl_c[0]; *o = &g_vl_c[0];
+	} else {
+		VL_SLOT_BODY(1)
+		g_vl_prev = &g_vl_c[1]; *o = &g_vl_c[1];
 	}
-#elif defined(VL_MODE_IDX)
-	/* INT-12: the previous chain's index list is the current one's plus one element; the common positions are
-	 * compared by vl_il_elementAt */
-	g_vl_il_len[s] = nondet_size() & VL_MAX_LIST;
-	cur->chainIndex = VR_OPT(&g_vl_il[s]);
-	g_vi_calls = 0; g_vi_prev_fetched = 0;
-	if (g_vl_prev != NULL &&
-		!spec_index_len_extends(g_vl_prev->chainIndex != NULL ? g_vl_il_len[1 - s] : 0, cur->chainIndex != NULL ? g_vl_il_len[s] : 0)) g_vl_fail = 1;
-#elif defined(VL_MODE_CONS)
-	/* INT-01: the output of the previous chain equals the input hash of this one */
-	vr_havoc_hash(VR_H_IN0);
-	cur->inputHash = VR_OPT(&g_vr_h[VR_H_IN0]);
-	if (g_vl_prev != NULL && !vr_hash_eq(VL_OUT(pos - 1), cur->inputHash)) g_vl_fail = 1;
-#endif
-	g_vl_prev = cur; g_vl_calls++;
-	*o = cur;
+	g_vl_calls++;
 	return KSI_OK;
 }
 
+/* pointer fields of the two chain slots are fixed once: a fetch only rewrites the VALUES behind them (the loop havoc then
+ * contains no pointers read back from memory) */
+static void vl_chain_init(KSI_AggregationHashChain *c, int s) {
+	c->ctx = VR_CTX; c->ref = 1; c->inputData = NULL; c->chain = NULL; c->outputHash = NULL; c->outputLevel = 0; c->inputLevel = 0;
+	c->aggregationTime = &g_vl_time[s]; c->aggrHashId = &g_vl_algid[s]; c->chainIndex = NULL; c->inputHash = NULL;
+#if defined(VL_MODE_SHAPE) || defined(VL_MODE_IDX)
+	c->chainIndex = &g_vl_il[s];
+#endif
+#if defined(VL_MODE_CONS)
+	c->inputHash = &g_vr_h[VR_H_IN0];
+#endif
+}
 static void vl_world_init(void) {
 	vr_world_init();
 	g_vr_chainlist.length = vl_length; g_vr_chainlist.elementAt = vl_elementAt;
@@ -136,10 +164,10 @@ static void vl_world_init(void) {
 	g_vl_rfc_ret = nondet_int();
 	g_vi_calls = 0; g_vi_prev_fetched = 0;
 	g_vl_level = 0; g_vl_aggs = 0;
-	memset(&g_vl_c[0], 0, sizeof(g_vl_c[0])); memset(&g_vl_c[1], 0, sizeof(g_vl_c[1]));
-	g_vl_c[0].ctx = VR_CTX; g_vl_c[0].ref = 1; g_vl_c[1].ctx = VR_CTX; g_vl_c[1].ref = 1;
+	vl_chain_init(&g_vl_c[0], 0); vl_chain_init(&g_vl_c[1], 1);
+	g_vl_time[0].ref = 1; g_vl_time[1].ref = 1; g_vl_algid[0].ref = 1; g_vl_algid[1].ref = 1;
 #if defined(VL_MODE_SHAPE) || defined(VL_MODE_IDX)
-	memset(&g_vl_il[0], 0, sizeof(g_vl_il[0])); memset(&g_vl_il[1], 0, sizeof(g_vl_il[1]));
+	g_vl_iv[0].ref = 1; g_vl_iv[1].ref = 1;
 	g_vl_il[0].length = vl_il_length; g_vl_il[0].elementAt = vl_il_elementAt;
 	g_vl_il[1].length = vl_il_length; g_vl_il[1].elementAt = vl_il_elementAt;
 #endif
